@@ -42,6 +42,17 @@ func producer(t *Term) string {
 	return t.LooseString()
 }
 
+// persistedAfter: whenever the field change x executes, a store write under
+// prefix follows on every path to a successful return (the change is not lost).
+func persistedAfter(x hev, evs []hev, prefix string) bool {
+	for _, y := range evs {
+		if y.ev.Kind == "store.set" && hasPrefix(y.ev, prefix) && followedBy(x.ev, y.ev) {
+			return true
+		}
+	}
+	return false
+}
+
 func runC07(cx *Ctx, r *Report) {
 	r.Explanation = "F4 double entry for the two service escrows on every call chain of the service handlers and the end blocker. Deposit escrow: bind/update/enable pay owner→deposit account exactly the coins added to ServiceBinding.Deposit; refund pays the whole recorded deposit to the owner and clears it; slash moves ⌊deposit·SlashFraction⌋ of the base denom to the fee collector and reduces the record by the same coins. Request escrow: (same provenance) the amount charged to the consumer per provider and the ServiceFee recorded on that provider's request must be produced by the same computation; respond moves ⌊fee·tax⌋ to the fee collector and adds fee−tax, one term, to both the provider and the owner tally; expiry refunds the recorded ServiceFee to the recorded consumer; withdraw pays out exactly the tally that is deleted, and (tally-decrease-complete) a per-denom tally that is rewritten from a difference must be cleared first, otherwise denominations that drop to zero keep their old entry. Every bank effect of the module's handlers is classified (closed world). Decides provenance and pairing; discount and exchange-rate arithmetic are not decided."
 	r.Assumptions = []string{"bank keeper semantics", "per-denom tallies are stored one key per denomination (as the code does)"}
@@ -127,7 +138,7 @@ func runC07(cx *Ctx, r *Report) {
 				// same condition: both under ¬Empty(msg.Deposit)
 				_, g1 := d[0].fact(false, "sdk.Coins.Empty(msg.Deposit)")
 				_, g2 := p.fact(false, "sdk.Coins.Empty(msg.Deposit)")
-				ok = g1 && g2 && d[0].ev.Fr == p.ev.Fr && instrReaches(d[0].ev.Site, p.ev.Site)
+				ok = g1 && g2 && d[0].ev.Fr == p.ev.Fr && instrReaches(d[0].ev.Site, p.ev.Site) && persistedAfter(d[0], evs, "service:ServiceBindingKey=0x02")
 			}
 			how = "Deposit += msg.Deposit and the payment are both under ¬Empty(msg.Deposit)"
 		}
@@ -146,7 +157,7 @@ func runC07(cx *Ctx, r *Report) {
 		if ok {
 			pos = pay[0].ev.Pos(cx)
 			b := "service/keeper.Keeper.GetServiceBinding(keeper, msg.ServiceName, addr(msg.Provider))#0"
-			ok = lastArgS(pay[0].ev) == b+".Deposit" && pay[0].ev.Args[2].LooseString() == "addr("+b+".Owner)" && pay[0].must() && clr[0].must() && orderedBefore(pay[0].ev, clr[0].ev) &&
+			ok = lastArgS(pay[0].ev) == b+".Deposit" && pay[0].ev.Args[2].LooseString() == "addr("+b+".Owner)" && pay[0].must() && clr[0].must() && orderedBefore(pay[0].ev, clr[0].ev) && persistedAfter(clr[0], evs, "service:ServiceBindingKey=0x02") &&
 				(clr[0].ev.Args[0].Op == "alloc" || clr[0].ev.Args[0].LooseString() == "coins(nil)" || strings.HasPrefix(clr[0].ev.Args[0].LooseString(), "new:"))
 		}
 		r.check(ok, "deposit-double-entry", "RefundServiceDeposit", pos, "the whole recorded deposit is paid from the escrow to the binding's owner and the record is then cleared", "deposit refund does not pay exactly the recorded deposit to the recorded owner and clear it")
@@ -170,6 +181,10 @@ func runC07(cx *Ctx, r *Report) {
 					orderedBefore(s.ev, as[0].ev)
 				_, neg := s.fact(false, "#1") // ¬hasNeg
 				ok = ok && neg
+				if ok && !persistedAfter(as[0], evs, "service:ServiceBindingKey=0x02") {
+					r.violate("slash-double-entry", name, as[0].ev.Pos(cx), "the slashed coins leave the deposit escrow but the reduced Deposit is not written back on every path (there is a path from the reduction to a successful return without storing the binding): escrow and recorded deposits drift apart")
+					continue
+				}
 			}
 			r.check(ok, "slash-double-entry", name, s.ev.Pos(cx), "⌊deposit(base denom)·SlashFraction⌋ moves from the deposit escrow to the fee collector and the recorded deposit is reduced by the same coins", "slash transfer "+trunc(slashed, 120)+" is not paired with Deposit = Deposit − the same coins")
 		}
